@@ -23,7 +23,91 @@ func init() {
 	})
 }
 
+// c03FirstCalls runs before anything else in a fresh worker process: the very
+// first crypto operations of the process use the all-zero key (even batches)
+// or a non-zero key followed by the all-zero key (odd batches).
+func c03FirstCalls(c *core.Ctx) {
+	if !c.Mine("first-calls", int64(c.Batch)) {
+		return
+	}
+	r := c.RNG("first-calls", int64(c.Batch))
+	var zero, other [16]byte
+	r.Fill(other[:])
+	keys := [][16]byte{zero, other, zero, other, zero}
+	if c.Batch%2 == 1 {
+		keys = [][16]byte{other, zero, other, zero}
+	}
+	var da [4]byte
+	r.Fill(da[:])
+	for step, key := range keys {
+		for _, ln := range []int{5, 16, 33} {
+			pt := r.Bytes(ln)
+			var out []byte
+			var err error
+			c.Eval(1)
+			if p, msg := core.Guard(func() {
+				out, err = lorawan.EncryptFRMPayload(lorawan.AES128Key(key), true, lorawan.DevAddr(da), 7, append([]byte{}, pt...))
+			}); p || err != nil {
+				c.Violate("C03|first-calls|EncryptFRMPayload|failed", "call %d of the process (key %x): %v %s", step, key, err, short(msg, 300))
+				continue
+			}
+			if want := spec.XOR(pt, spec.FRMKeystream(key, true, da, 7, ln)); !bytes.Equal(out, want) {
+				c.Violate("C03|first-calls|EncryptFRMPayload|keystream", "call %d of the process with key %x after keys %x: got %x want %x", step, key, keys[:step], out, want)
+			}
+		}
+		fo := r.Bytes(9)
+		var out []byte
+		var err error
+		c.Eval(1)
+		if p, msg := core.Guard(func() {
+			out, err = lorawan.EncryptFOpts(lorawan.AES128Key(key), false, false, lorawan.DevAddr(da), 9, append([]byte{}, fo...))
+		}); p || err != nil {
+			c.Violate("C03|first-calls|EncryptFOpts|failed", "call %d (key %x): %v %s", step, key, err, short(msg, 300))
+		} else if want := spec.XOR(fo, spec.FOptsKeystream(key, false, false, da, 9)); !bytes.Equal(out, want) {
+			c.Violate("C03|first-calls|EncryptFOpts|keystream", "call %d with key %x after %x: got %x want %x", step, key, keys[:step], out, want)
+		}
+		c.Shape("first-calls", c.Batch%2, step)
+	}
+}
+
+// c03SharedBuffer: one caller-owned payload buffer used for two frames (multicast,
+// retransmission with the next FCnt): each frame must carry plaintext XOR its own keystream.
+func c03SharedBuffer(c *core.Ctx, r *core.RNG) {
+	ln := []int{16, 32, 48, 5, 17, 240, 64, 1}[r.Intn(8)]
+	shared := r.Bytes(ln)
+	orig := append([]byte{}, shared...)
+	key := key16(r)
+	var da [4]byte
+	r.Fill(da[:])
+	up := r.Bool()
+	mt := lorawan.UnconfirmedDataDown
+	if up {
+		mt = lorawan.UnconfirmedDataUp
+	}
+	port := uint8(1 + r.Intn(200))
+	fcnt := r.U32Edge()
+	for k := uint32(0); k < 2; k++ {
+		phy := lorawan.PHYPayload{MHDR: lorawan.MHDR{MType: mt}, MACPayload: &lorawan.MACPayload{
+			FHDR: lorawan.FHDR{DevAddr: lorawan.DevAddr(da), FCnt: fcnt + k}, FPort: &port,
+			FRMPayload: []lorawan.Payload{&lorawan.DataPayload{Bytes: shared}}}}
+		var err error
+		c.Eval(1)
+		if p, msg := core.Guard(func() { err = phy.EncryptFRMPayload(lorawan.AES128Key(key)) }); p || err != nil {
+			c.Violate("C03|shared-buffer|failed", "%v %s", err, short(msg, 200))
+			return
+		}
+		got, _ := payloadBytes(phy.MACPayload.(*lorawan.MACPayload).FRMPayload)
+		want := spec.XOR(orig, spec.FRMKeystream(key, up, da, fcnt+k, ln))
+		if !bytes.Equal(got, want) {
+			c.Violate(fmt.Sprintf("C03|shared-buffer|frame=%d|aligned=%v", k, ln%16 == 0), "the same %d-byte payload buffer is sent in two frames (FCnt %d and %d): frame %d carries %x, plaintext XOR keystream is %x", ln, fcnt, fcnt+1, k, got, want)
+			return
+		}
+	}
+	c.Shape("shared-buffer", ln, up)
+}
+
 func runC03(c *core.Ctx) {
+	c03FirstCalls(c)
 	// 1. exported EncryptFRMPayload: all lengths x parameter sets
 	sets := c.N(40, 2000)
 	idx := int64(0)
@@ -132,6 +216,9 @@ func runC03(c *core.Ctx) {
 			continue
 		}
 		r := c.RNG("methods", i)
+		if i%8 == 0 {
+			c03SharedBuffer(c, r)
+		}
 		d := genDataCase(r, anyData())
 		key := key16(r)
 		up := d.Spec.Uplink()
